@@ -26,7 +26,7 @@ from pathlib import Path
 
 VERIF = Path(__file__).resolve().parent.parent
 SPECS = VERIF / 'specs'
-EVIDENCE = VERIF / 'evidence'
+EVIDENCE = Path(os.environ.get('VERIF_EVIDENCE_DIR') or VERIF / 'evidence')   # redirected by tools that must not rewrite evidence
 REPLAYS = VERIF / 'replays'
 KNOWN = VERIF / 'known_findings.json'
 REPO = Path(os.environ.get('VERIF_REPO', '/repo'))
